@@ -129,6 +129,57 @@ def shaped_spec(rng, recursive=False):
     return dict(nlabels=nlabels, elabels=elabels, start=0, rules=rules, weights=weights,
                 features=sorted(feats), recursive=recursive)
 
+def late_label_spec(rng):
+    """S -> rule1 (terminal edges only, several bags) | rule2 (uses A); A -> terminal rules.  Some label that occurs
+    neither in rule1 nor before it is NAMED like a fresh nonterminal of rule1 (X0_1, X0_2): the nonterminal A itself (of
+    the type of a piece of rule1, or of another type), a terminal used only in later rules, an unused terminal.
+    Returns (spec, names)."""
+    feats = {"label_named_like_fresh_elsewhere"}
+    dom = rng.choice([2, 2, 3])
+    variant = rng.choice(["nt_same", "nt_same", "nt_diff", "term_late", "term_unused", "nt_same+term_unused"])
+    ar_a = 1 if "nt_same" in variant else (rng.choice([0, 2]) if variant == "nt_diff" else rng.choice([1, 2]))
+    S, A, T_UN, T_BIN, T_LATE, T_UNUSED = 0, 1, 2, 3, 4, 5
+    elabels = [dict(term=False, type=[]), dict(term=False, type=[0] * ar_a), dict(term=True, type=[0]),
+               dict(term=True, type=[0, 0]), dict(term=True, type=[0, 0]), dict(term=True, type=[0])]
+    n = rng.randint(4, 6)
+    vs = list(range(n)); rng.shuffle(vs)
+    shape = rng.choice(["path", "path", "cycle", "star"])
+    pairs = list(zip(vs, vs[1:])) if shape != "star" else [(vs[0], v) for v in vs[1:]]
+    if shape == "cycle": pairs.append((vs[-1], vs[0]))
+    e1 = [(T_BIN, [a, b] if rng.random() < 0.5 else [b, a]) for a, b in pairs]
+    for _ in range(rng.choice([0, 1, 2])): e1.append((T_UN, [rng.randrange(n)]))
+    rng.shuffle(e1)
+    rule1 = dict(lhs=S, nodes=[0] * n, edges=e1, ext=[])
+    m = max(2, ar_a)
+    e2 = [(A, list(range(ar_a))), (T_LATE, [0, 1])]
+    if rng.random() < 0.5: e2.append((T_UN, [rng.randrange(m)]))
+    rule2 = dict(lhs=S, nodes=[0] * m, edges=e2, ext=[])
+    arules = []
+    for _ in range(rng.choice([1, 2])):
+        k = ar_a + rng.choice([0, 1, 2]); k = max(k, 1)
+        es = []
+        for v in range(k):
+            if rng.random() < 0.7: es.append((T_UN, [v]))
+        for v in range(k - 1):
+            es.append((rng.choice([T_BIN, T_LATE]), [v, v + 1]))
+        ext = list(range(k)); rng.shuffle(ext); ext = ext[:ar_a]
+        arules.append(dict(lhs=A, nodes=[0] * k, edges=es, ext=ext))
+    rules = [rule1, rule2] + arules
+    weights = {}
+    grid = gen.REAL_GRID[:-1]; gp = gen.REAL_GRID_P[:-1]
+    for el in (T_UN, T_BIN, T_LATE, T_UNUSED):
+        shape_ = [dom] * len(elabels[el]["type"])
+        weights[el] = gen.nested(shape_, lambda: rng.choices(grid, gp)[0])
+    spec = dict(nlabels=[dom], elabels=elabels, start=0, rules=rules, weights=weights, features=[], recursive=False)
+    lhs_name = gen.el_name(spec, S)
+    names = {}
+    if "nt_same" in variant or variant == "nt_diff": names[("el", A)] = "%s_%d" % (lhs_name, rng.choice([1, 1, 2]))
+    if variant == "term_late": names[("el", T_LATE)] = "%s_%d" % (lhs_name, rng.choice([1, 2]))
+    if "term_unused" in variant: names[("el", T_UNUSED)] = "%s_%d" % (lhs_name, 2 if ("el", A) in names and names[("el", A)].endswith("_1") else 1)
+    feats.add("late_" + variant)
+    spec["features"] = sorted(feats)
+    return spec, names
+
 def is_recursive(spec):
     el = spec["elabels"]
     succ = {}
@@ -411,22 +462,28 @@ def run(tier, seed):
     feats = {}
     n_sp_budget = 150 if tier == "quick" else 2500
     for i in range(n_specs):
-        k = i % 6
-        if k in (0, 1, 2):
+        k = i % 8
+        late_names = None
+        if k in (6, 7):
+            spec, late_names = late_label_spec(rng)
+        elif k in (0, 1, 2):
             spec = shaped_spec(rng, recursive=(k == 2 and rng.random() < 0.5))
         elif k in (3, 4):
             spec = gen.random_spec(rng, recursive=False, max_nodes=6, max_edges=6, allow_inf=False)
         else:
             spec = gen.random_spec(rng, recursive=True, max_nodes=5, max_edges=5, allow_inf=False)
         spec["recursive"] = is_recursive(spec)
-        names = collide_names(spec, rng) if i % 5 == 4 else {}
-        if names: spec["features"] = sorted(set(spec["features"]) | {"terminal_named_like_fresh"})
+        if late_names is not None:
+            names = late_names
+        else:
+            names = collide_names(spec, rng) if i % 5 == 4 else {}
+            if names: spec["features"] = sorted(set(spec["features"]) | {"terminal_named_like_fresh"})
         for f in spec["features"]: feats[f] = feats.get(f, 0) + 1
         ids = ["explicit", "implicit", "mixed"][i % 3]
         for mi, method in enumerate(METHODS):
             for entry in ("rule", "hrg", "fgg"):
                 labels_mode = ["None", "empty", "all"][(i + mi) % 3]
-                do_sp = len(out["sp"]) < n_sp_budget
+                do_sp = len(out["sp"]) < n_sp_budget or late_names is not None      # always compare the sum-products of the late-label stream
                 try:
                     run_case(spec, names, ids, method, entry, labels_mode, rng, out, violations, stats, do_sp)
                 except Exception as e:
